@@ -462,7 +462,10 @@ def g_events(sc, res, ids):
                 continue
             out.append("ERecv %d" % ids[e[2]])
         elif e[1] == "rx":
-            out.append("ERx %s" % classify_line(e[2]))
+            k = classify_line(e[2])
+            if k == "LErr" and e[3] is None:
+                k = "LAlarm"          # an error line that answers no statement (emitted by the device on its own)
+            out.append("ERx %s" % k)
         elif e[1] == "return":
             out.append("EReturn %s" % ("Returned" if e[3] == "returned" else "Raised"))
     return g_list(out)
